@@ -452,4 +452,265 @@ theorem mf_projSd_smul_R (c : α) (L Rp : Phi2 α) (rR : Nat) (l z : Core α) (r
   refine Finset.sum_congr rfl fun S _ => ?_
   ring
 
+/-! ### shapes of the projected variations -/
+
+omit [CommRing α] in
+theorem mf_SameRanks_WF (ls rs ds : List (Core α)) :
+    ∀ ρ, SameRanks ls rs ds ρ → WF ls ρ ∧ WF rs ρ ∧ WF ds ρ := by
+  induction ls generalizing rs ds with
+  | nil =>
+    intro ρ h
+    match rs, ds, h with
+    | [], [], h => exact ⟨h, h, h⟩
+  | cons l ls ih =>
+    intro ρ h
+    match rs, ds, h with
+    | r :: rs, d :: ds, h =>
+      obtain ⟨h1, h2, h3, h4, h5, h'⟩ := h
+      obtain ⟨w1, w2, w3⟩ := ih rs ds _ h'
+      exact ⟨⟨h1, by rw [h4]; exact w1⟩, ⟨h2, w2⟩, ⟨h3, by rw [h5]; exact w3⟩⟩
+
+omit [CommRing α] in
+theorem mf_prightList_length [Zero α] [One α] [Add α] [Mul α] (rs zs : List (Core α))
+    (h : zs.length = rs.length) : (prightList rs zs).length = rs.length := by
+  induction rs generalizing zs with
+  | nil => simp [prightList]
+  | cons r rs ih =>
+    match zs, h with
+    | z :: zs, h =>
+      have h' : zs.length = rs.length := by simpa using h
+      simp [prightList, ih zs h']
+
+theorem mf_projSdsGo_cons2 (l l' z z' : Core α) (ls zs : List (Core α)) (p0 pr : Phi2 α)
+    (prs : List (Phi2 α)) (L : Phi2 α) :
+    projSdsGo (l :: l' :: ls) (z :: z' :: zs) (p0 :: pr :: prs) L =
+      projSd L (some pr) l.r1 l z ::
+        projSdsGo (l' :: ls) (z' :: zs) (pr :: prs) (pleftStep L l z) := rfl
+
+/-- the variations computed by `riemannian_projection` have the rank profile of the base point -/
+theorem mf_SameRanks_projSdsGo (ls rs zs : List (Core α)) (hne : ls ≠ []) :
+    ∀ (ρ s : Nat) (prs : List (Phi2 α)) (L : Phi2 α), SameRanks ls rs ls ρ → WF zs s →
+      zs.length = ls.length → prs.length = ls.length →
+      SameRanks ls rs (projSdsGo ls zs prs L) ρ := by
+  induction ls generalizing rs zs with
+  | nil => exact absurd rfl hne
+  | cons l ls ih =>
+    intro ρ s prs L hs hw hz hp
+    match rs, zs, prs, hs, hw, hz, hp with
+    | r :: rs, z :: zs, p0 :: prs, hs, hw, hz, hp =>
+      obtain ⟨hl0, hr0, _, hl1, _, hs'⟩ := hs
+      obtain ⟨_, hw'⟩ := hw
+      cases ls with
+      | nil =>
+        match rs, zs, hs', hz with
+        | [], [], hs', _ =>
+          have hr1 : r.r1 = 1 := hs'
+          have hz1 : z.r1 = 1 := hw'
+          exact ⟨hl0, hr0, hl0, hl1, by show z.r1 = r.r1; omega, hs'⟩
+      | cons l' ls' =>
+        match rs, zs, prs, hs', hw', hz, hp with
+        | r' :: rs', z' :: zs', pr :: prs', hs', hw', hz, hp =>
+          rw [mf_projSdsGo_cons2]
+          refine ⟨hl0, hr0, hl0, hl1, hl1, ?_⟩
+          exact ih (r' :: rs') (z' :: zs') (by simp) r.r1 z.r1 (pr :: prs') _ hs' hw'
+            (by simpa using hz) (by simpa using hp)
+
+/-! ### the projection fixes the base point (left-orthogonal gauge) -/
+
+/-- `Σ_{a,i,j} l[a,i,j,b] · l[a,i,j,b'] = δ_{bb'}` -/
+def LeftOrth (l : Core α) : Prop :=
+  ∀ b b', b < l.r1 → b' < l.r1 →
+    sumTo l.r0 (fun a => sumTo l.m (fun i => sumTo l.n (fun j =>
+      l.get a i j b * l.get a i j b'))) = if b = b' then 1 else 0
+
+/-- all cores but the last are left-orthonormal -/
+def LeftOrthInit : List (Core α) → Prop
+  | [] => True
+  | [_] => True
+  | l :: l' :: ls => LeftOrth l ∧ LeftOrthInit (l' :: ls)
+
+/-- `L` is the identity on indices `< ρ` -/
+def mf_IsId (L : Phi2 α) (ρ : Nat) : Prop :=
+  ∀ r s, r < ρ → s < ρ → L r s = if r = s then 1 else 0
+
+theorem mf_sum_id (L : Phi2 α) (ρ : Nat) (hL : mf_IsId L ρ) (a : Nat) (ha : a < ρ) (f : Nat → α) :
+    sumTo ρ (fun s => L a s * f s) = f a := by
+  rw [sumTo_single a ha]
+  · rw [hL a a ha ha]; simp
+  · intro k hk hne
+    rw [hL a k ha hk, if_neg (fun h => hne h.symm)]; simp
+
+theorem mf_pleftStep_self (L : Phi2 α) (l : Core α) (hL : mf_IsId L l.r0) (ho : LeftOrth l) :
+    mf_IsId (pleftStep L l l) l.r1 := by
+  intro R S hR hS
+  rw [← ho R S hR hS]
+  unfold pleftStep
+  apply sumTo_congr; intro r hr
+  rw [sumTo_single r hr]
+  · apply sumTo_congr; intro i _
+    apply sumTo_congr; intro j _
+    rw [hL r r hr hr]; simp
+  · intro s hs hne
+    apply sumTo_eq_zero; intro i _
+    apply sumTo_eq_zero; intro j _
+    rw [hL r s hr hs, if_neg (fun h => hne h.symm)]; simp
+
+/-- with `z_k = l_k` left-orthonormal and `L = I`, the gauge-projected variation vanishes -/
+theorem mf_projSd_self_zero (L Rp : Phi2 α) (rR : Nat) (l : Core α) (hL : mf_IsId L l.r0)
+    (ho : LeftOrth l) (a : Nat) (ha : a < l.r0) (i j R : Nat) :
+    (projSd L (some Rp) rR l l).get a i j R = 0 := by
+  rw [mf_projSd_get_some]
+  apply sumTo_eq_zero; intro S hS
+  rw [mf_sum_id L l.r0 hL a ha (fun s => l.get s i j S)]
+  have hI := mf_pleftStep_self L l hL ho
+  have : sumTo l.r1 (fun R' => l.get a i j R' * pleftStep L l l R' S) = l.get a i j S := by
+    rw [sumTo_single S hS]
+    · rw [hI S S hS hS]; simp
+    · intro k hk hne
+      rw [hI k S hk hS, if_neg hne]; simp
+  rw [this]; ring
+
+theorem mf_tsum_projSdsGo_self (ls rs : List (Core α)) (is : List (Nat × Nat)) (hne : ls ≠ []) :
+    ∀ (ρ : Nat) (prs : List (Phi2 α)) (L : Phi2 α), SameRanks ls rs ls ρ → LeftOrthInit ls →
+      prs.length = ls.length → is.length = ls.length → mf_IsId L ρ →
+      ∀ a, a < ρ → mf_tsum ls rs (projSdsGo ls ls prs L) is a = chain ls is a 0 := by
+  induction ls generalizing rs is with
+  | nil => exact absurd rfl hne
+  | cons l ls ih =>
+    intro ρ prs L hs ho hp hil hL a ha
+    match rs, is, prs, hs, hil, hp with
+    | r :: rs, i :: is, p0 :: prs, hs, hil, hp =>
+      obtain ⟨hl0, hr0, _, hl1, _, hs'⟩ := hs
+      cases ls with
+      | nil =>
+        match rs, is, hs', hil with
+        | [], [], hs', _ =>
+          have e : projSdsGo [l] [l] (p0 :: prs) L = [projSd L none 0 l l] := rfl
+          rw [e, mf_tsum_cons, mf_chain_cons, mf_chain_cons l]
+          have h0 : sumTo l.r1 (fun k => l.get a i.1 i.2 k * mf_tsum [] [] [] [] k) = 0 := by
+            apply sumTo_eq_zero; intro k _; simp [mf_tsum]
+          rw [h0, add_zero]
+          show sumTo l.r1 _ = _
+          apply sumTo_congr; intro k _
+          rw [mf_projSd_get_none]
+          have hL' : mf_IsId L l.r0 := by rw [hl0]; exact hL
+          rw [mf_sum_id L l.r0 hL' a (by omega) (fun s => l.get s i.1 i.2 k)]
+      | cons l' ls' =>
+        match rs, is, prs, hs', hil, hp with
+        | r' :: rs', i' :: is', pr :: prs', hs', hil, hp =>
+          obtain ⟨ho1, ho'⟩ := ho
+          have hL' : mf_IsId L l.r0 := by rw [hl0]; exact hL
+          rw [mf_projSdsGo_cons2, mf_tsum_cons, mf_chain_cons, mf_chain_cons l]
+          have h0 : sumTo (projSd L (some pr) l.r1 l l).r1 (fun k =>
+              (projSd L (some pr) l.r1 l l).get a i.1 i.2 k * chain (r' :: rs') (i' :: is') k 0) = 0 := by
+            apply sumTo_eq_zero; intro k _
+            rw [mf_projSd_self_zero L pr l.r1 l hL' ho1 a (by omega)]; ring
+          rw [h0, zero_add]
+          apply sumTo_congr; intro k hk
+          have hI : mf_IsId (pleftStep L l l) r.r1 := by
+            rw [← hl1]; exact mf_pleftStep_self L l hL' ho1
+          rw [ih (r' :: rs') (i' :: is') (by simp) r.r1 (pr :: prs') (pleftStep L l l) hs' ho'
+            (by simpa using hp) (by simpa using hil) hI k (by omega)]
+
+/-! ### `delta2cores` is linear in the variations -/
+
+theorem mf_tsum_add (ls rs ds es : List (Core α)) (is : List (Nat × Nat))
+    (hlen : es.length = ds.length) (h1 : ∀ p ∈ ds.zip es, p.2.r1 = p.1.r1) :
+    ∀ a, mf_tsum ls rs (List.zipWith addC ds es) is a = mf_tsum ls rs ds is a + mf_tsum ls rs es is a := by
+  induction ls generalizing rs ds es is with
+  | nil => intro a; simp [mf_tsum]
+  | cons l ls ih =>
+    intro a
+    match rs, ds, es, is, hlen, h1 with
+    | [], _, _, _, _, _ => simp [mf_tsum]
+    | _ :: _, [], [], _, _, _ => simp [mf_tsum]
+    | _ :: _, _ :: _, _ :: _, [], _, _ => simp [mf_tsum]
+    | r :: rs, d :: ds, e :: es, i :: is, hlen, h1 =>
+      have hlen' : es.length = ds.length := by simpa using hlen
+      have he : e.r1 = d.r1 := h1 (d, e) (by simp)
+      have h1' : ∀ p ∈ ds.zip es, p.2.r1 = p.1.r1 := fun p hp => h1 p (by simp [hp])
+      rw [List.zipWith_cons_cons, mf_tsum_cons, mf_tsum_cons, mf_tsum_cons, mf_chain_cons,
+        mf_chain_cons d, mf_chain_cons e, he]
+      show sumTo d.r1 _ + _ = _
+      have e1 : ∀ k, (addC d e).get a i.1 i.2 k * chain rs is k 0 =
+          d.get a i.1 i.2 k * chain rs is k 0 + e.get a i.1 i.2 k * chain rs is k 0 := by
+        intro k; simp [addC]; ring
+      have e2 : ∀ k, l.get a i.1 i.2 k * mf_tsum ls rs (List.zipWith addC ds es) is k =
+          l.get a i.1 i.2 k * mf_tsum ls rs ds is k + l.get a i.1 i.2 k * mf_tsum ls rs es is k := by
+        intro k; rw [ih rs ds es is hlen' h1' k]; ring
+      simp only [e1, e2, sumTo_add_fn]
+      ring
+
+theorem mf_tsum_smul (c : α) (ls rs ds : List (Core α)) (is : List (Nat × Nat)) :
+    ∀ a, mf_tsum ls rs (ds.map (smulC c)) is a = c * mf_tsum ls rs ds is a := by
+  induction ls generalizing rs ds is with
+  | nil => intro a; simp [mf_tsum]
+  | cons l ls ih =>
+    intro a
+    match rs, ds, is with
+    | [], _, _ => simp [mf_tsum]
+    | _ :: _, [], _ => simp [mf_tsum]
+    | _ :: _, _ :: _, [] => simp [mf_tsum]
+    | r :: rs, d :: ds, i :: is =>
+      rw [List.map_cons, mf_tsum_cons, mf_tsum_cons, mf_chain_cons, mf_chain_cons d]
+      show sumTo d.r1 _ + _ = _
+      have e1 : ∀ k, (smulC c d).get a i.1 i.2 k * chain rs is k 0 =
+          c * (d.get a i.1 i.2 k * chain rs is k 0) := by
+        intro k; simp [smulC]; ring
+      have e2 : ∀ k, l.get a i.1 i.2 k * mf_tsum ls rs (ds.map (smulC c)) is k =
+          c * (l.get a i.1 i.2 k * mf_tsum ls rs ds is k) := by
+        intro k; rw [ih rs ds is k]; ring
+      simp only [e1, e2, sumTo_mul_left]
+      ring
+
+theorem mf_SameRanks_zipWith_addC (ls rs ds es : List (Core α)) :
+    ∀ ρ, SameRanks ls rs ds ρ → SameRanks ls rs es ρ → SameRanks ls rs (List.zipWith addC ds es) ρ := by
+  induction ls generalizing rs ds es with
+  | nil =>
+    intro ρ h1 h2
+    match rs, ds, es, h1, h2 with
+    | [], [], [], h1, _ => exact h1
+  | cons l ls ih =>
+    intro ρ h1 h2
+    match rs, ds, es, h1, h2 with
+    | r :: rs, d :: ds, e :: es, h1, h2 =>
+      obtain ⟨a1, a2, a3, a4, a5, a6⟩ := h1
+      obtain ⟨_, _, _, _, _, b6⟩ := h2
+      exact ⟨a1, a2, a3, a4, a5, ih rs ds es _ a6 b6⟩
+
+theorem mf_SameRanks_map_smulC (c : α) (ls rs ds : List (Core α)) :
+    ∀ ρ, SameRanks ls rs ds ρ → SameRanks ls rs (ds.map (smulC c)) ρ := by
+  induction ls generalizing rs ds with
+  | nil =>
+    intro ρ h1
+    match rs, ds, h1 with
+    | [], [], h1 => exact h1
+  | cons l ls ih =>
+    intro ρ h1
+    match rs, ds, h1 with
+    | r :: rs, d :: ds, h1 =>
+      obtain ⟨a1, a2, a3, a4, a5, a6⟩ := h1
+      exact ⟨a1, a2, a3, a4, a5, ih rs ds _ a6⟩
+
+omit [CommRing α] in
+theorem mf_SameRanks_zip_r1 (ls rs ds es : List (Core α)) :
+    ∀ ρ, SameRanks ls rs ds ρ → SameRanks ls rs es ρ → ∀ p ∈ ds.zip es, p.2.r1 = p.1.r1 := by
+  induction ls generalizing rs ds es with
+  | nil =>
+    intro ρ h1 h2
+    match rs, ds, es, h1, h2 with
+    | [], [], [], _, _ => intro p hp; simp at hp
+  | cons l ls ih =>
+    intro ρ h1 h2
+    match rs, ds, es, h1, h2 with
+    | r :: rs, d :: ds, e :: es, h1, h2 =>
+      obtain ⟨_, _, _, _, a5, a6⟩ := h1
+      obtain ⟨_, _, _, _, b5, b6⟩ := h2
+      intro p hp
+      rw [List.zip_cons_cons, List.mem_cons] at hp
+      rcases hp with rfl | hp
+      · show e.r1 = d.r1
+        omega
+      · exact ih rs ds es _ a6 b6 p hp
+
 end TT.Manifold
